@@ -4535,8 +4535,17 @@ load_message (DBusMessageLoader *loader,
         {
           _dbus_verbose ("Failed to validate message body code %d\n", validity);
 
-          loader->corrupted = TRUE;
-          loader->corruption_reason = validity;
+          /* running out of memory while validating (a signature inside
+           * the body) says nothing about the data */
+          if (validity == DBUS_VALIDITY_UNKNOWN_OOM_ERROR)
+            {
+              oom = TRUE;
+            }
+          else
+            {
+              loader->corrupted = TRUE;
+              loader->corruption_reason = validity;
+            }
           
           goto failed;
         }
